@@ -1,31 +1,554 @@
 package main
 
-// Goroutines, channels and sync primitives (M5). Placeholder until the scheduler is built.
+// Goroutines as coroutines inside one executor state (DESIGN 3.6). A modelled thread runs on
+// its own host goroutine, but only one of them runs at a time: control is handed over at
+// *visible operations* (sync primitives, channel operations, thread start/exit, join). At every
+// visible operation the next thread to run is a decision among the threads whose pending
+// operation is enabled - a fork of the path like any other symbolic branch, so the schedule is
+// part of the decision prefix and is re-executed deterministically.
 
 import (
+	"fmt"
+	"go/types"
+	"strings"
+
 	"golang.org/x/tools/go/ssa"
 )
 
-type Sched struct{}
+type vthread struct {
+	id      int
+	resume  chan struct{}
+	exited  chan struct{}
+	done    bool
+	enabled func() bool // pending visible operation can complete (nil: yes)
+	what    string
+	// saved interpreter context
+	cur            *Frame
+	depth          int
+	pendingDeferOf *Frame
+}
 
-func (ex *Exec) goStmt(fr *Frame, x *ssa.Go) { ex.unsupported("go statement (scheduler not built)") }
+type threadKilled struct{}
+
+type Sched struct {
+	threads  []*vthread
+	cur      int
+	abort    interface{}
+	schedule []int
+	visible  int
+	killed   bool
+}
+
+const maxVisibleOps = 400
+
+func (ex *Exec) sched() *Sched {
+	if ex.threads == nil {
+		ex.threads = &Sched{threads: []*vthread{{id: 0, resume: make(chan struct{}, 1)}}}
+	}
+	return ex.threads
+}
+
+func (ex *Exec) curThread() int {
+	if ex.threads == nil {
+		return 0
+	}
+	return ex.threads.cur
+}
+
+// decideFree: an unconstrained n-way choice (no solver call).
+func (ex *Exec) decideFree(n int, what string) int {
+	if ex.specDepth > 0 {
+		panic(&specAbort{"fork needed: " + what})
+	}
+	if ex.decIdx < len(ex.prefix) {
+		i := ex.prefix[ex.decIdx]
+		if i < 0 || i >= n {
+			ex.unsupported("decision trace misaligned at %s", what)
+		}
+		ex.decIdx++
+		ex.trace = append(ex.trace, i)
+		return i
+	}
+	for alt := 1; alt < n; alt++ {
+		item := make([]int, len(ex.trace)+1)
+		copy(item, ex.trace)
+		item[len(ex.trace)] = alt
+		ex.pending = append(ex.pending, item)
+	}
+	ex.decIdx++
+	ex.trace = append(ex.trace, 0)
+	return 0
+}
+
+// visibleOp is called by the running thread right before a visible operation; it returns when
+// this thread has been chosen to perform the operation (which is then enabled).
+func (ex *Exec) visibleOp(what string, enabled func() bool) {
+	if ex.specDepth > 0 {
+		panic(&specAbort{"visible operation: " + what})
+	}
+	if ex.threads == nil {
+		if enabled != nil && !enabled() {
+			ex.deadlock([]string{"main: " + what})
+		}
+		return
+	}
+	s := ex.threads
+	me := s.threads[s.cur]
+	me.enabled, me.what = enabled, what
+	ex.reschedule(me)
+	me.enabled, me.what = nil, ""
+}
+
+func (ex *Exec) deadlock(blocked []string) {
+	msg := "all goroutines are asleep - deadlock: " + strings.Join(blocked, "; ")
+	site := ""
+	if ex.cur != nil {
+		site = ex.cur.fn.String()
+	}
+	ex.recordViolation("deadlock", "no-deadlock", msg, site, nil)
+	panic(&pathAbort{Kind: "done", Msg: "deadlock"})
+}
+
+func (ex *Exec) reschedule(me *vthread) {
+	s := ex.threads
+	var cand []*vthread
+	var blocked []string
+	for _, t := range s.threads {
+		if t.done {
+			continue
+		}
+		if t.enabled == nil || t.enabled() {
+			cand = append(cand, t)
+		} else {
+			blocked = append(blocked, fmt.Sprintf("thread %d: %s", t.id, t.what))
+		}
+	}
+	if len(cand) == 0 {
+		ex.deadlock(blocked)
+	}
+	s.visible++
+	if s.visible > maxVisibleOps {
+		panic(&pathAbort{Kind: "budget", Msg: fmt.Sprintf("more than %d visible operations on one path", maxVisibleOps)})
+	}
+	i := 0
+	if len(cand) > 1 {
+		i = ex.decideFree(len(cand), "schedule")
+	}
+	next := cand[i]
+	s.schedule = append(s.schedule, next.id)
+	if next == me {
+		return
+	}
+	ex.switchTo(me, next)
+}
+
+func (ex *Exec) switchTo(me, next *vthread) {
+	s := ex.threads
+	me.cur, me.depth, me.pendingDeferOf = ex.cur, ex.depth, ex.pendingDeferOf
+	s.cur = next.id
+	ex.cur, ex.depth, ex.pendingDeferOf = next.cur, next.depth, next.pendingDeferOf
+	next.resume <- struct{}{}
+	if me.done {
+		return
+	}
+	ex.park(me)
+}
+
+func (ex *Exec) park(me *vthread) {
+	s := ex.threads
+	<-me.resume
+	if s.killed {
+		panic(&threadKilled{})
+	}
+	if me.id == 0 && s.abort != nil {
+		r := s.abort
+		s.abort = nil
+		panic(r)
+	}
+}
+
+// goStmt starts a modelled thread; it becomes runnable and is scheduled at a later visible operation.
+func (ex *Exec) goStmt(fr *Frame, x *ssa.Go) {
+	fv, args := ex.prepareCall(fr, &x.Call, x)
+	ex.startThread(fr, fv, args, x)
+}
+
+func (ex *Exec) startThread(fr *Frame, fv Value, args []Value, site ssa.Instruction) {
+	if ex.specDepth > 0 {
+		panic(&specAbort{"go statement"})
+	}
+	if ex.initMode {
+		ex.unsupported("go statement during package initialisation")
+	}
+	s := ex.sched()
+	if len(s.threads) >= 6 {
+		ex.unsupported("more than 6 goroutines")
+	}
+	t := &vthread{id: len(s.threads), resume: make(chan struct{}, 1), exited: make(chan struct{})}
+	s.threads = append(s.threads, t)
+	go func() {
+		defer close(t.exited)
+		<-t.resume
+		if s.killed {
+			return
+		}
+		defer func() {
+			r := recover()
+			if _, ok := r.(*threadKilled); ok {
+				return
+			}
+			t.done = true
+			if r == nil {
+				// normal end: hand over (may itself detect a deadlock)
+				func() {
+					defer func() {
+						if r2 := recover(); r2 != nil {
+							if _, ok := r2.(*threadKilled); !ok {
+								r = r2
+							}
+						}
+					}()
+					ex.reschedule(t)
+				}()
+				if r == nil {
+					return
+				}
+			}
+			if gp, ok := r.(*GoPanic); ok && !gp.Fatal {
+				// an uncaught panic in any goroutine ends the process
+				r = &GoPanic{Val: gp.Val, Msg: "panic in goroutine: " + gp.Msg, Runtime: gp.Runtime, Fatal: true, Site: gp.Site, Stack: gp.Stack}
+			}
+			s.abort = r
+			main := s.threads[0]
+			s.cur = 0
+			ex.cur, ex.depth, ex.pendingDeferOf = main.cur, main.depth, main.pendingDeferOf
+			main.resume <- struct{}{}
+		}()
+		ex.callValue(nil, fv, args, site)
+	}()
+}
+
+// killThreads ends every parked host goroutine of this path (called by the driver).
+func (ex *Exec) killThreads() {
+	s := ex.threads
+	if s == nil {
+		return
+	}
+	s.killed = true
+	for _, t := range s.threads[1:] {
+		select {
+		case <-t.exited:
+			continue
+		default:
+		}
+		select {
+		case t.resume <- struct{}{}:
+		default:
+		}
+		<-t.exited
+	}
+}
+
+// ---------- lock state (side table keyed by the address of the primitive)
+
+type lockState struct {
+	writer  int // thread id holding the write lock, -1 none
+	readers map[int]int
+	wg      int  // WaitGroup counter
+	onceRun bool // Once completed
+}
+
+func lockKey(p Pointer) string {
+	var sb strings.Builder
+	fmt.Fprintf(&sb, "%d", p.Obj.ID)
+	for _, e := range p.Path {
+		fmt.Fprintf(&sb, ".%d", e.Idx)
+	}
+	return sb.String()
+}
+
+func (ex *Exec) lockOf(v Value, site ssa.Instruction) *lockState {
+	p, ok := v.(Pointer)
+	if !ok || p.Obj == nil {
+		ex.goPanicRuntime("invalid memory address or nil pointer dereference (nil sync primitive)", ex.posOf(site))
+	}
+	if ex.locks == nil {
+		ex.locks = map[string]*lockState{}
+	}
+	k := lockKey(p)
+	ls := ex.locks[k]
+	if ls == nil {
+		ls = &lockState{writer: -1, readers: map[int]int{}}
+		ex.locks[k] = ls
+	}
+	return ls
+}
+
+func (ex *Exec) syncFatal(msg string, site ssa.Instruction) {
+	panic(&GoPanic{Val: ex.runtimeErrorValue(msg), Msg: "fatal error: " + msg, Runtime: true, Fatal: true, Site: ex.posOf(site), Stack: ex.stackStrings()})
+}
+
+func nReaders(ls *lockState) int {
+	n := 0
+	for _, c := range ls.readers {
+		n += c
+	}
+	return n
+}
+
+func init() {
+	type H = intrinsicFn
+	lock := func(ex *Exec, fr *Frame, fn *ssa.Function, a []Value, site ssa.Instruction) Value {
+		ls := ex.lockOf(a[0], site)
+		ex.visibleOp("Lock at "+ex.posOf(site), func() bool { return ls.writer < 0 && nReaders(ls) == 0 })
+		ls.writer = ex.curThread()
+		return nil
+	}
+	unlock := func(ex *Exec, fr *Frame, fn *ssa.Function, a []Value, site ssa.Instruction) Value {
+		ls := ex.lockOf(a[0], site)
+		ex.visibleOp("Unlock at "+ex.posOf(site), nil)
+		if ls.writer < 0 {
+			ex.syncFatal("sync: unlock of unlocked mutex", site)
+		}
+		ls.writer = -1
+		return nil
+	}
+	tryLock := func(ex *Exec, fr *Frame, fn *ssa.Function, a []Value, site ssa.Instruction) Value {
+		ls := ex.lockOf(a[0], site)
+		ex.visibleOp("TryLock at "+ex.posOf(site), nil)
+		if ls.writer < 0 && nReaders(ls) == 0 {
+			ls.writer = ex.curThread()
+			return ex.ts.True()
+		}
+		return ex.ts.False()
+	}
+	rlock := func(ex *Exec, fr *Frame, fn *ssa.Function, a []Value, site ssa.Instruction) Value {
+		ls := ex.lockOf(a[0], site)
+		ex.visibleOp("RLock at "+ex.posOf(site), func() bool { return ls.writer < 0 })
+		ls.readers[ex.curThread()]++
+		return nil
+	}
+	runlock := func(ex *Exec, fr *Frame, fn *ssa.Function, a []Value, site ssa.Instruction) Value {
+		ls := ex.lockOf(a[0], site)
+		ex.visibleOp("RUnlock at "+ex.posOf(site), nil)
+		if nReaders(ls) == 0 {
+			ex.syncFatal("sync: RUnlock of unlocked RWMutex", site)
+		}
+		// any reader may release (Go does not track ownership)
+		t := ex.curThread()
+		if ls.readers[t] > 0 {
+			ls.readers[t]--
+		} else {
+			for k, c := range ls.readers {
+				if c > 0 {
+					ls.readers[k]--
+					break
+				}
+			}
+		}
+		return nil
+	}
+	tryRLock := func(ex *Exec, fr *Frame, fn *ssa.Function, a []Value, site ssa.Instruction) Value {
+		ls := ex.lockOf(a[0], site)
+		ex.visibleOp("TryRLock at "+ex.posOf(site), nil)
+		if ls.writer < 0 {
+			ls.readers[ex.curThread()]++
+			return ex.ts.True()
+		}
+		return ex.ts.False()
+	}
+	registerIntrinsic("(*sync.Mutex).Lock", lock)
+	registerIntrinsic("(*sync.Mutex).Unlock", unlock)
+	registerIntrinsic("(*sync.Mutex).TryLock", tryLock)
+	registerIntrinsic("(*sync.RWMutex).Lock", lock)
+	registerIntrinsic("(*sync.RWMutex).Unlock", unlock)
+	registerIntrinsic("(*sync.RWMutex).TryLock", tryLock)
+	registerIntrinsic("(*sync.RWMutex).RLock", rlock)
+	registerIntrinsic("(*sync.RWMutex).RUnlock", runlock)
+	registerIntrinsic("(*sync.RWMutex).TryRLock", tryRLock)
+
+	registerIntrinsic("(*sync.WaitGroup).Add", func(ex *Exec, fr *Frame, fn *ssa.Function, a []Value, site ssa.Instruction) Value {
+		ls := ex.lockOf(a[0], site)
+		d, ok := a[1].(*Term)
+		if !ok || !d.Const {
+			ex.unsupported("WaitGroup.Add with a symbolic delta")
+		}
+		ex.visibleOp("WaitGroup.Add at "+ex.posOf(site), nil)
+		ls.wg += int(d.BigS().Int64())
+		if ls.wg < 0 {
+			panic(&GoPanic{Val: ex.runtimeErrorValue("sync: negative WaitGroup counter"), Msg: "sync: negative WaitGroup counter", Site: ex.posOf(site), Stack: ex.stackStrings()})
+		}
+		return nil
+	})
+	registerIntrinsic("(*sync.WaitGroup).Done", func(ex *Exec, fr *Frame, fn *ssa.Function, a []Value, site ssa.Instruction) Value {
+		ls := ex.lockOf(a[0], site)
+		ex.visibleOp("WaitGroup.Done at "+ex.posOf(site), nil)
+		ls.wg--
+		if ls.wg < 0 {
+			panic(&GoPanic{Val: ex.runtimeErrorValue("sync: negative WaitGroup counter"), Msg: "sync: negative WaitGroup counter", Site: ex.posOf(site), Stack: ex.stackStrings()})
+		}
+		return nil
+	})
+	registerIntrinsic("(*sync.WaitGroup).Wait", func(ex *Exec, fr *Frame, fn *ssa.Function, a []Value, site ssa.Instruction) Value {
+		ls := ex.lockOf(a[0], site)
+		ex.visibleOp("WaitGroup.Wait at "+ex.posOf(site), func() bool { return ls.wg == 0 })
+		return nil
+	})
+	registerIntrinsic("(*sync.Once).Do", func(ex *Exec, fr *Frame, fn *ssa.Function, a []Value, site ssa.Instruction) Value {
+		ls := ex.lockOf(a[0], site)
+		// Do holds the Once's mutex while f runs: a second caller waits until the first returns
+		ex.visibleOp("Once.Do at "+ex.posOf(site), func() bool { return ls.writer < 0 })
+		if ls.onceRun {
+			return nil
+		}
+		ls.writer = ex.curThread()
+		func() {
+			defer func() {
+				ls.onceRun = true
+				ls.writer = -1
+			}()
+			ex.callValue(fr, a[1], nil, site)
+		}()
+		return nil
+	})
+
+	// harness API
+	vxAPI["vxGo"] = func(ex *Exec, fr *Frame, fn *ssa.Function, args []Value, site ssa.Instruction) Value {
+		ex.startThread(fr, args[0], nil, site)
+		return nil
+	}
+	vxAPI["vxJoin"] = func(ex *Exec, fr *Frame, fn *ssa.Function, args []Value, site ssa.Instruction) Value {
+		if ex.threads == nil {
+			return nil
+		}
+		s := ex.threads
+		ex.visibleOp("join", func() bool {
+			for _, t := range s.threads[1:] {
+				if !t.done {
+					return false
+				}
+			}
+			return true
+		})
+		return nil
+	}
+	vxAPI["vxThreadID"] = func(ex *Exec, fr *Frame, fn *ssa.Function, args []Value, site ssa.Instruction) Value {
+		return ex.goInt(int64(ex.curThread()))
+	}
+}
+
+// ---------- lock discipline (lockset check on objects the harness declares guarded)
+
+func (ex *Exec) raceCheck(o *Object, write bool, site string) {
+	if ex.guards == nil || ex.threads == nil || o == nil {
+		return
+	}
+	k, ok := ex.guards[o]
+	if !ok {
+		return
+	}
+	live := 0
+	for _, t := range ex.threads.threads {
+		if !t.done && t.what != "join" {
+			live++
+		}
+	}
+	if live < 2 {
+		return
+	}
+	cur := ex.curThread()
+	ls := ex.locks[k]
+	if ls != nil && (ls.writer == cur || (!write && ls.readers[cur] > 0)) {
+		return
+	}
+	what := "read"
+	if write {
+		what = "write"
+	}
+	fnName := ""
+	if ex.cur != nil {
+		fnName = ex.cur.fn.String()
+		if site == "" {
+			site = fnName
+		}
+	}
+	key := what + "@" + site
+	if ex.raceSeen == nil {
+		ex.raceSeen = map[string]bool{}
+	}
+	if ex.raceSeen[key] {
+		return
+	}
+	ex.raceSeen[key] = true
+	ex.recordViolation("race", "lock-discipline", fmt.Sprintf("%s of lock-guarded shared state while other threads run and the lock is not held (in %s)", what, fnName), site, nil)
+}
+
+func init() {
+	// vxGuardedBy(p, mu): the object p points to, and the maps and slice arrays its fields
+	// refer to at this moment, may only be accessed with mu held (write mode for stores)
+	vxAPI["vxGuardedBy"] = func(ex *Exec, fr *Frame, fn *ssa.Function, args []Value, site ssa.Instruction) Value {
+		var p Pointer
+		switch x := args[0].(type) {
+		case Pointer:
+			p = x
+		case IfaceV:
+			if q, ok := x.V.(Pointer); ok {
+				p = q
+			}
+		}
+		mu, ok := args[1].(Pointer)
+		if iv, isI := args[1].(IfaceV); isI {
+			mu, ok = iv.V.(Pointer)
+		}
+		if p.Obj == nil || !ok || mu.Obj == nil {
+			ex.unsupported("vxGuardedBy: need two non-nil pointers")
+		}
+		if ex.guards == nil {
+			ex.guards = map[*Object]string{}
+		}
+		k := lockKey(mu)
+		ex.guards[p.Obj] = k
+		if root, ok := ex.memGet(p.Obj); ok {
+			if st, ok := ex.loadPath(root, p.Path).(*StructV); ok {
+				for _, f := range st.Fields {
+					switch v := f.(type) {
+					case MapV:
+						if v.Obj != nil {
+							ex.guards[v.Obj] = k
+						}
+					case SliceV:
+						if v.Arr.Obj != nil {
+							ex.guards[v.Arr.Obj] = k
+						}
+					}
+				}
+			}
+		}
+		return nil
+	}
+}
+
+// ---------- channels (built in a later step)
+
 func (ex *Exec) makeChan(fr *Frame, x *ssa.MakeChan) Value {
-	ex.unsupported("make(chan) (scheduler not built)")
+	ex.unsupported("make(chan) (channel model not built)")
 	return nil
 }
 func (ex *Exec) chanSend(fr *Frame, ch, v Value, site ssa.Instruction) {
-	ex.unsupported("channel send (scheduler not built)")
+	ex.unsupported("channel send (channel model not built)")
 }
 func (ex *Exec) chanRecv(fr *Frame, ch Value, commaOk bool, site ssa.Instruction) Value {
-	ex.unsupported("channel receive (scheduler not built)")
+	ex.unsupported("channel receive (channel model not built)")
 	return nil
 }
 func (ex *Exec) chanClose(fr *Frame, ch Value, site ssa.Instruction) {
-	ex.unsupported("channel close (scheduler not built)")
+	ex.unsupported("channel close (channel model not built)")
 }
 func (ex *Exec) selectStmt(fr *Frame, x *ssa.Select) Value {
-	ex.unsupported("select (scheduler not built)")
+	ex.unsupported("select (channel model not built)")
 	return nil
 }
 func (ex *Exec) chanLen(c ChanV) *Term { ex.unsupported("len(chan)"); return nil }
 func (ex *Exec) chanCap(c ChanV) *Term { ex.unsupported("cap(chan)"); return nil }
+
+var _ = types.Typ
